@@ -84,7 +84,8 @@ class SimulationHistory:
             ]
         else:
             assert logs is not None
-            self._logs = logs
+            # the recorded logs belong to the caller: commit() appends to our own list, never to theirs
+            self._logs = list(logs)
 
         self._cached_store: Optional[AddressedStore] = None
 
